@@ -194,9 +194,31 @@ def check_props(prop, log):
     for t in thms:
         if t not in printed:
             res["errors"].append("theorem %s has no Print Assumptions" % t)
-    cmd = "timeout 600 coqc -Q . NV -w -notation-overridden,-deprecated-hint-without-locality Props/%s.v" % prop
+    cmd = "timeout 1200 coqc -Q . NV -w -notation-overridden,-deprecated-hint-without-locality Props/%s.v" % prop
     res["checker_cmd"] = "cd coq && make && " + cmd
-    rc, out = sh(cmd, 660, COQ)
+    if os.environ.get("VERIF_TIER_NOW") == "thorough" or os.environ.get("VERIF_RECOMPILE_PROPS"):
+        # thorough tier: compile the theorem file once more from scratch and read the Print Assumptions it contains
+        rc, out = sh(cmd, 1260, COQ)
+        res["props_compiled"] = "recompiled in this run"
+    else:
+        # quick tier: build_coq has just brought Props/<prop>.vo up to date with its whole dependency closure (compiled by coqc in
+        # this run if any source was newer); load that .vo and print the assumptions of every theorem by its qualified name
+        pa = os.path.join(COQ, "PA_%s_%d.v" % (prop, os.getpid()))
+        with open(pa, "w") as fh:
+            fh.write("From NV Require Props.%s.\n" % prop + "".join("Print Assumptions NV.Props.%s.%s.\n" % (prop, t) for t in thms))
+        try:
+            rc, out = sh("timeout 600 coqc -Q . NV -w none %s" % os.path.basename(pa), 660, COQ)
+        finally:
+            for ext in (".v", ".vo", ".vok", ".vos", ".glob"):
+                try:
+                    os.remove(pa[:-2] + ext)
+                except OSError:
+                    pass
+            try:
+                os.remove(os.path.join(COQ, "." + os.path.basename(pa)[:-2] + ".aux"))
+            except OSError:
+                pass
+        res["props_compiled"] = "Props/%s.vo brought up to date by coqc against its dependency closure in this run or an earlier one (mtime check), assumptions printed from the loaded .vo" % prop
     if rc != 0:
         res["errors"].append("coqc failed: " + out[-1500:])
         return res
@@ -426,6 +448,7 @@ def main(argv):
     if a.replay:
         return replay(prop, a.replay, by_name, work)
 
+    os.environ["VERIF_TIER_NOW"] = tier
     log = []
     violations = []   # (payload, found_input: bool)
     known_lines = []
@@ -631,7 +654,7 @@ def main(argv):
             "checker_cmd": proof.get("checker_cmd", ""),
             "trusted_base": trusted_base(proof),
             "theorems": proof.get("theorems", []), "axioms_reported_by_Print_Assumptions": proof.get("axioms", []),
-            "proof_errors": proof.get("errors", []),
+            "proof_errors": proof.get("errors", []), "props_compiled": proof.get("props_compiled", ""),
             "evaluations": len(records), "model_evaluations_in_coq": len(exprs),
             "distinct_nontrivial": len(nontriv),
             "rule": getattr(mod, "RULE", "cases are drawn from structured generators (one PRNG seeded by VERIF_SEED); non-trivial = implementation returned a value (not an error) ; distinct by case hash"),
